@@ -50,13 +50,26 @@ def teardown(ctx, R):
 
 def cases(tier, seed):
     out = []
-    maxn = 7 if tier == "quick" else 12
+    maxn = 7 if tier == "quick" else 20
     rep = 40 if tier == "quick" else 300
     idx = 0
     for cls in CLASSES:
         for r in range(rep):
             out.append({"kind": "h", "cls": cls, "idx": idx, "seed": seed, "maxn": maxn})
             idx += 1
+    # sparse patterns at larger sizes: the parts of a column that are eliminated consist of round-off of earlier steps, whose size
+    # shrinks geometrically with the step (1e-160 after 8 steps): the reflector construction has to cope with any magnitude
+    for r in range(60 if tier == "quick" else 600):
+        out.append({"kind": "h", "cls": "sparse", "idx": idx, "seed": seed, "maxn": maxn, "n": 9 + r % (8 if tier == "quick" else 16)})
+        idx += 1
+    # fixed witness of defect 10.1/C09 (found by the thorough tier): 12 x 12, three non-zero entries of ordinary size
+    out.append({"kind": "h", "cls": "sparse", "idx": 3331, "seed": 0, "maxn": 20})
+    # exact power-of-two scalings into the range where squares of the entries under- or overflow
+    for cls in ("gauss", "hermitian", "int", "sparse", "near_hessenberg", "upper_tri"):
+        for p2 in (-1000, -900, -600, -540, -520, -500, -400, 400, 500, 520, 600):
+            for r in range(1 if tier == "quick" else 5):
+                out.append({"kind": "h", "cls": cls, "idx": idx, "seed": seed, "maxn": min(maxn, 8), "pow2": p2})
+                idx += 1
     return out
 
 
@@ -159,16 +172,25 @@ def run_case(spec, ctx, R):
     rng = gen.rng_for(spec["seed"], "c09", spec["idx"])
     cls = spec["cls"]
     n = 1 + (spec["idx"] % spec["maxn"]) if spec["idx"] % 2 else int(rng.integers(1, spec["maxn"] + 1))
+    n = spec.get("n", n)
+    if spec.get("pow2"):
+        n = max(n, 3)
     A = make(rng, cls, n)
     ctx.distinct(A, nontrivial=n >= 3 and refq.fro(A) > 0)
     if cls == "hessenberg":
         ctx.hit("class:already_hessenberg")
+    if spec.get("pow2"):
+        ctx.hit("scale:pow2_extreme")
+        judge(ctx, R, A, "hessenbergize:scaled_2^%d" % spec["pow2"], [cls, "extreme_scale"], pow2=spec["pow2"])
+        return
     judge(ctx, R, A, "hessenbergize", [cls])
     if spec["idx"] % 41 == 0:
         ctx.sample({"class": cls, "n": n, "A": A})
 
 
-def judge(ctx, R, A, site, tags):
+def judge(ctx, R, A, site, tags, pow2=0):
+    """pow2 != 0: the routine is given A * 2**pow2 (an exact scaling) and its H is scaled back exactly before it is judged against A,
+    so that the oracle arithmetic stays in the normal range while the routine works where squares under- or overflow."""
     Hm = R.hessenberg
     n = A.shape[0]
     eps = refq.EPS
@@ -176,7 +198,12 @@ def judge(ctx, R, A, site, tags):
     floor = 1e-300
     A0 = refq.fa(A).copy()
     try:
-        P, H = Hm.hessenbergize(A)
+        if pow2:
+            with np.errstate(all="ignore"):
+                P, H = Hm.hessenbergize(A * 2.0 ** pow2)
+            H = H * 2.0 ** (-pow2)
+        else:
+            P, H = Hm.hessenbergize(A)
     except Exception as e:
         ctx.check("unexpected_exception", False, site=site, tags=tags, detail={"exception": repr(e), "n": n})
         return
@@ -208,6 +235,8 @@ def judge(ctx, R, A, site, tags):
         eh = embed.eigvalsh(Hs)
         ctx.check("hermitian_eigenvalues", float(np.max(np.abs(ea - eh))) if ok_h else float("inf"),
                   C * n * eps * sweeps * max(s1, floor) + floor, site=site, tags=tags)
+    if pow2:
+        return
     # is_hessenberg agrees with the structure predicate at its own (absolute, componentwise) tolerance
     for M, nm in ((H, "H"), (A, "A")):
         for atol in (1e-12, 1e-6):
